@@ -349,6 +349,8 @@ class StmtMixin:
                 h.todo = fresh("todo", s.todo.sort())
                 h.time = fresh("time")
                 h.assume(h.time >= s.time)
+            for g, sort in getattr(lspec, "ghost_vars", {}).items():  # ghost state the loop updates: arbitrary, constrained by the invariant
+                h.ghost[g] = fresh("ghost_" + g, sort)
             nc = fresh("ctr")
             h.assume(nc >= s.ctr)
             h.ctr = nc
@@ -383,5 +385,7 @@ class StmtMixin:
         ex_st.path.append("%s:exit" % name)
         ex_st.ghost["i:" + key] = length
         if self.feasible(ex_st):
+            if hasattr(lspec, "at_exit"):  # lemmas about the finished loop (obligations, then available downstream)
+                lspec.at_exit(self, ex_st, ctxe)
             out.append((ex_st, NORMAL))
         return out
